@@ -361,3 +361,45 @@ def _plain_eq(a, b):
         return bool(a == b)
     except Exception:  # noqa
         return False
+
+
+# ---------------------------------------------------------------------------------------------------------------------------------
+# Scale probes (engine="PROBE"): concrete runs of the REAL stack on tens of thousands of sequences.  Not a solver verdict - they cover what
+# no symbolic bound reaches (positions beyond 255 / 65535, real process pools, large index structures).  The expected result is known by
+# construction, not by brute force:
+#   code(i) = the four base-20 digits of i, each letter written three times (length 12).  Every letter count of a code is a multiple of 3, so no
+#   single edit turns one code into another, nor a planted variant (one code with its last letter substituted) into a different code: at
+#   max_edits = 1 the only neighbour pairs are (code i, its planted variant), at distance 1, and equal strings at distance 0.
+def scale_code(i):
+    d = []
+    for _ in range(4):
+        d.append(AMINO[i % 20])
+        i //= 20
+    return "".join(c * 3 for c in d)
+
+
+def scale_case(n=70000, plant=(0, 255, 256, 65535, 65536, -1)):
+    """-> (sequences, {position of planted variant: position of its code})"""
+    seqs = [scale_code(i) for i in range(n)]
+    planted = {}
+    for i in plant:
+        i = i % n
+        if i in planted.values():
+            continue
+        s = seqs[i]
+        seqs.append(s[:-1] + ("A" if s[-1] != "A" else "C"))
+        planted[len(seqs) - 1] = i
+    return seqs, planted
+
+
+def scale_self_expected(planted, dist=1):
+    want = set()
+    for j, i in planted.items():
+        want |= {(i, j, dist), (j, i, dist)}
+    return want
+
+
+def probe_condition(cid, what, fn):
+    """fn() -> (ok, detail), run once per check on the real stack"""
+    from vlib.rt import Condition
+    return Condition(cid, (lambda: True), (lambda inputs: fn()), budget=1, bounds=what, engine="PROBE")
